@@ -222,14 +222,17 @@ def observe_observer(o):
     if hasattr(o, "features") and isinstance(getattr(o, "features"), dict):
         out["features"] = {getattr(k, "value", str(k)): _arr(v) for k, v in o.features.items()}
         out["dtypes"] = {getattr(k, "value", str(k)): str(v.dtype) for k, v in o.features.items()}
-    if name == "EarliestStartTimeObserver":
+    # documented extra attributes, read defensively (a refactoring may drop them; they are only ever compared
+    # between two worlds running the same code)
+    if name == "EarliestStartTimeObserver" and hasattr(o, "earliest_start_times"):
         out["est"] = _arr(o.earliest_start_times)
     if name == "IsCompletedObserver":
-        out["rem_m"] = _arr(o.remaining_ops_per_machine)
-        out["rem_j"] = _arr(o.remaining_ops_per_job)
+        for key, attr in (("rem_m", "remaining_ops_per_machine"), ("rem_j", "remaining_ops_per_job")):
+            if hasattr(o, attr):
+                out[key] = _arr(getattr(o, attr))
     if name == "CompositeFeatureObserver":
         out["columns"] = {getattr(k, "value", str(k)): list(v) for k, v in o.column_names.items()}
-        out["parts"] = [type(p).__name__ for p in o.feature_observers]
+        out["parts"] = [type(p).__name__ for p in getattr(o, "feature_observers", [])]
     if name == "UnscheduledOperationsObserver":
         out["uns"] = [[op.operation_id for op in dq] for dq in o.unscheduled_operations_per_job]
     if name == "HistoryObserver":
